@@ -3,6 +3,7 @@ import FlacVerif.Driver.StreamDrv
 import FlacVerif.Driver.KernelDrv
 import FlacVerif.Driver.CompDrv
 import FlacVerif.Driver.ParDrv
+import FlacVerif.Driver.ApiDrv
 open FlacVerif Proto Drv
 
 def renderAll (id : String) (vs : List Verdict) (stats : List String) : List String :=
@@ -20,6 +21,7 @@ def handle (line : String) : List String :=
   | "kernel" => let (vs, st) := kernelRecord r; renderAll id vs st
   | "comp" => let (vs, st) := compRecord r; renderAll id vs st
   | "par" => let (vs, st) := parRecord r; renderAll id vs st
+  | "api" => let (vs, st) := apiRecord r; renderAll id vs st
   | k => [s!"SKIP {id} unknown-record-kind-{k}"]
 
 partial def loop (h : IO.FS.Stream) (out : IO.FS.Stream) : IO Unit := do
